@@ -172,3 +172,41 @@ Proof.
   split; [apply bytes_okb_ok; vm_compute; reflexivity|].
   eexists. split; [vm_compute; reflexivity|]. split; [vm_compute; reflexivity|]. reflexivity.
 Qed.
+
+(* ---- the writers above are the source ----
+   Every PES writer that the theorems of this file mention (enc_pts_or_dts, enc_escr, enc_dsm_trick_mode,
+   enc_pes_optional_header, enc_pes_header with the PES_packet_length rule pes_packet_length, write_pes_data) is, for every
+   argument, what go/gen (writegen.go) translates from the CURRENT source of writePTSOrDTS / writeESCR / writeDSMTrickMode /
+   writePESOptionalHeader / writePESHeader / writePESData into Gen/WriteGen.v (wf_sim, Proofs/WriteGenBase.v): the same
+   items handed to the BitsWriter in the same order (equal up to the bits a w-bit write ignores, hence the same bytes and
+   the same io.Writer calls), none through a w.Write whose result is discarded, the same returned counts, the same error
+   class, a panic exactly where the model panics.  An edit of one of these Go functions regenerates Gen/WriteGen.v and this
+   theorem (Proofs/WriteGenPes.v) stops checking. *)
+Require Import Gen.MuxGen Gen.WriteGen Proofs.WriteGenBase Proofs.WriteGenPes.
+Theorem C12_writers_are_source :
+  (forall flag cr, wf_sim (WriteGen.writePTSOrDTS flag cr) (Ok (enc_pts_or_dts flag cr, C_ptsOrDTSByteLength))) /\
+  (forall cr, wf_sim (WriteGen.writeESCR cr) (Ok (enc_escr cr, C_escrLength))) /\
+  (forall m, wf_sim (WriteGen.writeDSMTrickMode m) (Ok (enc_dsm_trick_mode m, C_dsmTrickModeLength))) /\
+  (forall oh, wf_sim (WriteGen.writePESOptionalHeader (Some oh)) (enc_pes_optional_header oh)) /\
+  wf_sim (WriteGen.writePESOptionalHeader None) (Ok ([], 0)) /\
+  (forall h payloadSize, wf_sim (WriteGen.writePESHeader h payloadSize) (enc_pes_header h payloadSize)) /\
+  (forall h payloadLeft isPayloadStart bytesAvailable,
+     wf_sim (WriteGen.writePESData h payloadLeft isPayloadStart bytesAvailable)
+            (write_pes_data_n h payloadLeft isPayloadStart bytesAvailable)).
+Proof. exact pes_writers_are_source. Qed.
+Print Assumptions C12_writers_are_source.
+Theorem C12_packet_length_is_source : forall h payloadSize items n, enc_pes_header h payloadSize = Ok (items, n) ->
+  exists l, WriteGen.writePESHeader h payloadSize = (l, Some (n, ENil)) /\
+            nth_error (map nsnd l) 2 = Some (norm (WBits 16 (pes_packet_length h payloadSize))) /\
+            bytes_of_items (map snd l) = bytes_of_items items.
+Proof. exact pes_packet_length_is_source. Qed.
+Print Assumptions C12_packet_length_is_source.
+(* the translated writePESData runs: it writes the packet of the example above back, byte for byte, and returns 22 and 3 *)
+Example C12_writers_are_source_inhabited :
+  exists d h l, parse_pes_data_bytes [0; 0; 1; 224; 0; 0; 128; 192; 10; 49; 0; 1; 0; 1; 17; 0; 1; 0; 1; 1; 2; 3] = Ok d /\
+    PESData_Header d = Some h /\
+    WriteGen.writePESData h (PESData_Data d) true 184 = (l, Some (22, 3, ENil)) /\
+    bytes_of_items (map snd l) = [0; 0; 1; 224; 0; 0; 128; 192; 10; 49; 0; 1; 0; 1; 17; 0; 1; 0; 1; 1; 2; 3].
+Proof.
+  do 3 eexists. split; [vm_compute; reflexivity|]. split; [reflexivity|]. split; vm_compute; reflexivity.
+Qed.
